@@ -322,6 +322,9 @@ def parse_kani_terse(text: str, obs: Dict[str, Ob]):
                 ob.result, ob.detail = "undecided", "solver limit: " + " ".join(b.split())[:300]
             elif any("unwinding assertion" in f["desc"] for f in ob.failed_checks):
                 ob.result, ob.detail = "undecided", "unwinding bound too small: " + json.dumps(ob.failed_checks)[:400]
+            elif ob.failed_checks and any("STRUCT:" in f["desc"] for f in ob.failed_checks):
+                # a structural obligation pins HOW the code establishes something; if it fails the contract no longer applies
+                ob.result, ob.detail = "undecided", "code structure changed, contract not applicable: " + "; ".join(f["desc"] for f in ob.failed_checks)[:400]
             elif ob.failed_checks:
                 ob.result = "failed"
                 ob.detail = "; ".join("%s @ %s" % (f["desc"], f["where"]) for f in ob.failed_checks)[:1500]
